@@ -12,6 +12,7 @@ R07e  an unchecked v[i] inside a blocked_range(0, N) task body has N = v.size(),
 import os
 
 from lib import env, ex
+from . import common
 from . import approx, c05, c10
 
 TITLE = 'C07: four named UB shapes decided on the resolved AST (escape, dangling reference members, reader buffer writes, past-the-end dereference).'
@@ -128,6 +129,94 @@ def r07f(rep, prog):
                 rep.violation('R07f', d, fn, what,
                               '`%s` adds %s of a vertex the other frontier may not have reached (its label is numeric_limits::max()) with a plain +: '
                               'signed integer overflow for integral weight types' % (d.text(60), call.callee['name']), key='R07f|%s|raw-plus' % fn.g)
+    return n
+
+
+def r07g(rep, prog, only_files=None):
+    """no mutable function-local static in a library function (other than the owner of the TBB control object, whose purpose is to outlive the
+    call): such a variable is shared by every call of that instantiation, so two independent calls running in different threads race on it and
+    state leaks from one call into the next"""
+    n = 0
+    seen = set()
+    for fn in prog.functions:
+        if fn.implicit or not (fn.file.startswith(env.REPO + '/include') or fn.file.startswith(env.WITNESS + '/positive')):
+            continue
+        if only_files and not any(x in fn.file for x in only_files):
+            continue
+        for d in fn.walk():
+            if d.k != 'VarDecl' or d.decl is None or d.decl.get('kind') != 'static_local':
+                continue
+            t = prog.type(d.j.get('t')) or {}
+            bt = prog.base_type(d.j.get('t')) or {}
+            if t.get('const') or bt.get('const'):
+                continue
+            key = (fn.g, d.decl.get('name'))
+            if key in seen:
+                continue
+            seen.add(key)
+            n += 1
+            what = 'library functions keep no mutable function-local static state'
+            if fn.g == common.KNOB:
+                rep.ok('R07g', d, fn, what, 'owner of the TBB control object: meant to outlive the call (C20)')
+                continue
+            rep.violation('R07g', d, fn, what,
+                          '`static %s` in %s is shared by all calls: concurrent calls on different graphs race on it (heap corruption / wrong results), and a call '
+                          'that leaves it non-empty poisons the next one' % (d.decl.get('name'), fn.g), key='R07g|%s|%s' % (fn.g, d.decl.get('name')))
+    return n
+
+
+def r07h(rep, prog, only_files=None):
+    """container sizes computed with unsigned subtraction do not wrap for the empty graph: the argument of reserve / resize / a sized constructor
+    is evaluated in its C++ arithmetic with num_vertices, num_edges and size() set to 0"""
+    n = 0
+    for fn in prog.functions:
+        if fn.implicit or not (fn.file.startswith(env.REPO + '/include') or fn.file.startswith(env.WITNESS + '/positive')):
+            continue
+        if only_files and not any(x in fn.file for x in only_files):
+            continue
+        for d in fn.walk():
+            if not (d.k == 'CXXMemberCallExpr' and d.callee and d.callee['name'] in ('reserve', 'resize') and d.args()):
+                continue
+            arg = d.args()[0]
+            subs = [x for x in [arg.strip_all()] + list(arg.walk()) if x.k == 'BinaryOperator' and x.op == '-']
+            # look through locals
+            v = ex.var_of(arg)
+            defs = {}
+            if v is not None and ex.unique_def(fn, v) is not None:
+                defs[v] = ex.unique_def(fn, v)
+                subs += [x for x in [defs[v].strip_all()] + list(defs[v].walk()) if x.k == 'BinaryOperator' and x.op == '-']
+            if not subs:
+                continue
+            for x in [arg.strip_all()] + list(arg.walk()) + ([y for y in defs[v].walk()] if v in defs else []):
+                xv = ex.var_of(x) if x.k in ('DeclRefExpr', 'MemberExpr') else None
+                if xv is None or xv in defs:
+                    continue
+                if prog.vars[xv]['kind'] == 'local' and ex.unique_def(fn, xv) is not None:
+                    defs[xv] = ex.unique_def(fn, xv)
+                elif prog.vars[xv]['kind'] == 'field':
+                    # a data member assigned earlier in the same function
+                    asg = [(a_, rhs) for (a_, rhs) in ex.assignments_to(fn, xv) if rhs is not None and fn.cfg.dominates(a_, d)]
+                    if len(asg) == 1:
+                        defs[xv] = asg[0][1]
+            n += 1
+            what = 'the size passed to `%s` does not wrap around for an empty graph' % d.callee['name']
+
+            def bind(s_):
+                if s_.k == 'CallExpr' and s_.callee and s_.callee['g'] in ('boost::num_vertices', 'boost::num_edges'):
+                    return 0
+                if s_.k == 'CXXMemberCallExpr' and s_.callee and s_.callee['name'] == 'size':
+                    return 0
+                return None
+            try:
+                val = ex.ceval(arg, bind, defs)
+            except ex.Unknown as e:
+                rep.info('R07h', d, fn, what, 'not evaluable for the empty graph (%s)' % e)
+                continue
+            if val >= (1 << 62):
+                rep.violation('R07h', d, fn, what, '`%s` evaluates to %d for a graph without vertices and edges (unsigned wrap-around): the call throws '
+                              'std::length_error / std::bad_alloc on a valid input' % (arg.text(40), val), key='R07h|%s|%s' % (fn.g, d.callee['name']))
+            else:
+                rep.ok('R07h', d, fn, what, 'evaluates to %s for the empty graph' % val)
     return n
 
 
@@ -384,6 +473,8 @@ def run(rep, tier):
     rep.rule('R10s', 'R07c: %s conversions cannot overflow', floor=1)
     rep.rule('R10b', 'R07c: the optional trailing weight is initialised before sscanf (no read of an indeterminate double on unweighted lines)', floor=1)
     rep.rule('R07d', 'no dereference of end()', floor=0)
+    rep.rule('R07h', 'sizes computed with unsigned subtraction do not wrap for the empty graph', floor=0)
+    rep.rule('R07g', 'no mutable function-local static state in library functions', floor=1)
     rep.rule('R07f', 'no plain + on a distance that may be the infinity marker (signed overflow for integral weights)', floor=0)
     rep.rule('R20a', 'the heap-allocated TBB control object has an owner that releases it (no leak per call)', floor=1)
     rep.rule('R07e', 'unchecked indexing inside blocked_range task bodies stays in bounds', floor=1)
@@ -399,6 +490,8 @@ def run(rep, tier):
         c, s = r07b(rep, prog)
         r07b_params(rep, prog)
         r07f(rep, prog)
+        r07g(rep, prog)
+        r07h(rep, prog)
         # "releases what it allocated": the control object allocated by the concurrency knob (shared with C20)
         from . import c20
         sub20 = type(rep)(rep.prop, rep.tier)
@@ -424,6 +517,12 @@ def run(rep, tier):
     pp = env.extract([pos], 'full')[pos]
     prep = type(rep)(rep.prop, rep.tier)
     r07b(prep, pp)
+    prep5 = type(rep)(rep.prop, rep.tier)
+    r07h(prep5, pp)
+    rep.positive('R07h', 'witness/positive/c07_shapes.cc', any(i.status == 'violation' for i in prep5.instances.values()))
+    prep4 = type(rep)(rep.prop, rep.tier)
+    r07g(prep4, pp)
+    rep.positive('R07g', 'witness/positive/c07_shapes.cc', any(i.status == 'violation' for i in prep4.instances.values()))
     prep3 = type(rep)(rep.prop, rep.tier)
     r07f(prep3, pp)
     rep.positive('R07f', 'witness/positive/c07_shapes.cc', any(i.status == 'violation' for i in prep3.instances.values()))
